@@ -33,7 +33,18 @@ MANIFEST = dict(
     technique="Lean 4 proof + differential correspondence model/implementation + three-compiler oracle",
 )
 MODULES = ["ShroudVerif.Props.C11"]
-THEOREMS = {"ShroudVerif.Props.C11": []}   # lead fills in
+THEOREMS = {
+    "ShroudVerif.Props.C11": [
+        "Shroud.Enum.enum_values_preserved",
+        "Shroud.Enum.enum_c_values",
+        "Shroud.Enum.enum_fortran_values",
+        "Shroud.Enum.value_text_preserved",
+        "Shroud.Enum.int_literal_agrees",
+        "Shroud.Enum.old_text_1mm1_rejected",
+        "Shroud.Enum.old_text_octal_misread",
+        "Shroud.Enum.exEnum_ok",
+    ]
+}
 
 PROPS_LEAN = os.path.join(common.LEAN, "ShroudVerif", "Props", "C11.lean")
 SCOPES = ("lib", "ns", "cls")
